@@ -5,7 +5,8 @@ P="$1"; shift
 cd /repo || exit 2
 if [ -n "$(git status --porcelain --untracked-files=no)" ]; then echo "repo dirty"; exit 2; fi
 git apply "$P" || { echo "patch does not apply"; exit 2; }
-trap 'git -C /repo checkout -- . ; git -C /repo clean -fdq src tests 2>/dev/null' EXIT
+rm -rf /tmp/evidence-backup-tp; cp -r /verif/evidence /tmp/evidence-backup-tp
+trap 'git -C /repo checkout -- . ; git -C /repo clean -fdq src tests 2>/dev/null; rm -rf /verif/evidence; mv /tmp/evidence-backup-tp /verif/evidence' EXIT
 if [ -z "${SKIP_BASELINE:-}" ]; then
   if ! cargo test --offline --quiet > /tmp/try_patch_baseline.log 2>&1; then echo "BASELINE FAILS (not a realistic change)"; tail -5 /tmp/try_patch_baseline.log; fi
 fi
